@@ -6,8 +6,11 @@ import (
 	"strings"
 	"sync/atomic"
 
+	"github.com/mithrandie/csvq/lib/query"
+
 	"verif/harness/internal/core"
 	"verif/harness/internal/drv"
+	"verif/harness/internal/rv"
 )
 
 // Extra family for C08: a statement can also return an error because its context is cancelled (csvq polls
@@ -106,7 +109,38 @@ func c08ReadKey(env *drv.Env) (string, error) {
 	}
 	var sb strings.Builder
 	for _, v := range r.Views {
-		sb.WriteString(strings.Join(drv.Header(v), ",") + "|" + drv.RowsKey(drv.Rows(v)) + "\n")
+		k, err := c08ViewKey(v)
+		if err != nil {
+			return "", err
+		}
+		sb.WriteString(k + "\n")
+	}
+	return sb.String(), nil
+}
+
+// c08ViewKey is the comparable text of a result of SELECT *. It first looks at the shape of the result: a table that
+// an interrupted statement left half-converted can hold records that are shorter or longer than the header, or cells
+// without a value; such a result is reported as an error (the callers turn it into "unreadable"), it must not bring
+// the reader down.
+func c08ViewKey(v *query.View) (string, error) {
+	hdr := drv.Header(v)
+	var sb strings.Builder
+	sb.WriteString(strings.Join(hdr, ",") + "|")
+	for i, rec := range v.RecordSet {
+		if len(rec) != len(hdr) {
+			return "", fmt.Errorf("malformed table: record %d has %d cells under a header of %d columns (%s)", i+1, len(rec), len(hdr), strings.Join(hdr, ","))
+		}
+		sb.WriteByte('[')
+		for j := range rec {
+			if len(rec[j]) < 1 || rec[j][0] == nil {
+				return "", fmt.Errorf("malformed table: record %d has no value in column %d (%s)", i+1, j+1, hdr[j])
+			}
+			if j > 0 {
+				sb.WriteByte('|')
+			}
+			sb.WriteString(rv.FromPrimary(rec[j][0]).Key())
+		}
+		sb.WriteByte(']')
 	}
 	return sb.String(), nil
 }
